@@ -90,6 +90,14 @@ func constructed(k int) *ir.Module {
 	slot.AddrSpace = types.AddrSpace(3 + k%2)
 	slot.SetName("slot")
 	next.NewStore(constant.NewInt(types.I64, 1), slot)
+	// a global variable and a function whose ADDRESS SPACE is set after construction (the only way the API offers), after they were used as operands:
+	// their cached types are stale when the first print starts
+	late := m.NewGlobalDef("late", constant.NewInt(types.I32, 1))
+	callee := m.NewFunc("callee", types.Void)
+	next.NewLoad(types.I32, late)
+	next.NewCall(callee)
+	late.AddrSpace = types.AddrSpace(2 + k%2)
+	callee.AddrSpace = types.AddrSpace(1 + k%2)
 	next.NewRet(s)
 	for i := 0; i < k%4; i++ {
 		m.NewFunc("", types.Void).NewBlock("").NewRet(nil)
